@@ -110,8 +110,19 @@ def fontOf (env : Env) : FontSel → Option Font
   | .idx i => some ((env.fonts[i]?).getD Font.fallback)
   | .fallback => some Font.fallback
 
+/-- `font.hscale`: the constant of `PDFFont.__init__`, overwritten by `PDFType3Font.__init__`. -/
+def fontHScale (f : Font) : Rat :=
+  match f.fm with
+  | none => font_hscale
+  | some m => type3_hscale m
+
+def fontVScale (f : Font) : Rat :=
+  match f.fm with
+  | none => font_vscale
+  | some m => type3_vscale m
+
 /-- `PDFFont.char_width`. -/
-def charWidth (f : Font) (cid : Nat) : Rat := char_width_scaled (f.width cid) f.hscale
+def charWidth (f : Font) (cid : Nat) : Rat := char_width_scaled (f.width cid) (fontHScale f)
 
 /-- `vx` of `LTChar.__init__` (vertical writing): half the font size when the font gives none. -/
 def ltcharVx (f : Font) (fontsize : Rat) (cid : Nat) : Rat :=
@@ -128,7 +139,7 @@ def ltchar (matrix : Matrix) (f : Font) (fontsize scaling rise : Rat) (cid : Nat
       let vy := ltchar_vy (f.disp cid).2 fontsize
       ltchar_bbox_v vx vy rise adv fontsize
     else
-      let descent := ltchar_descent (font_get_descent f.descent f.vscale) fontsize
+      let descent := ltchar_descent (font_get_descent f.descent (fontVScale f)) fontsize
       ltchar_bbox_h descent rise adv fontsize
   let (x0, y0, x1, y1) := apply_matrix_rect matrix bbox
   let (x0, x1) := if x1 < x0 then (x1, x0) else (x0, x1)
